@@ -51,6 +51,29 @@ def measure(yaw_e, yaw_g, rendering, ego, sign_e=1, sign_g=1, roll=0.0, pitch=0.
     return w, w2, he, he2, ap.tp_list[0]
 
 
+def measure_derived(yaw_e, yaw_g, rendering, ego):
+    """the ground truth is not built afresh but derived by the library (interpolate_dynamic_object between two annotated objects that have
+    already been scored, 30 degrees before / after yaw_g): physical heading yaw_g again -> (weight, yaw error)"""
+    from perception_eval.common.geometry import interpolate_dynamic_object
+    from perception_eval.evaluation.metrics.detection.tp_metrics import TPMetricsAph
+    from perception_eval.evaluation.result.object_result import DynamicObjectWithPerceptionResult
+
+    from ..build import obj3d
+
+    fr = "map" if rendering == "map" else "base_link"
+    step = 2 * 2 * math.pi / M
+    e = obj3d((5.0, 2.0, 0.0), yaw=yaw_e, label="car", score=0.8, frame=fr, ego=ego, time=1500)
+    g0 = obj3d((5.2, 2.1, 0.0), yaw=yaw_g - step, label="car", score=1.0, frame=fr, ego=ego, uuid="g", time=1000)
+    g1 = obj3d((5.2, 2.1, 0.0), yaw=yaw_g + step, label="car", score=1.0, frame=fr, ego=ego, uuid="g", time=2000)
+    tf = ego.transforms() if ego is not None else None
+    m = TPMetricsAph()
+    for g in (g0, g1):                      # the neighbours are scored first, as a run over the annotated frames would
+        m.get_value(DynamicObjectWithPerceptionResult(e, g, transforms=tf))
+    gi = interpolate_dynamic_object(g0, g1, 1000, 2000, 1500)
+    r = DynamicObjectWithPerceptionResult(e, gi, transforms=tf)
+    return m.get_value(r), r.heading_error[2]
+
+
 def replay(arg):
     from ..build import EgoPose
 
@@ -78,6 +101,16 @@ def replay(arg):
                 if e_ < -math.pi - 1e-9 or e_ > math.pi + 1e-9 or abs(abs(e_) - want_d) > 1e-9:
                     mism.append(("yaw-error:" + tag, "yaw error %r, specification magnitude %r" % (e_, want_d), rep))
                     break
+        n += 1
+        rep = {"a": a, "b": b, "k": k, "rendering": rendering, "yaw_est": ya, "yaw_gt": yb, "ground_truth": "interpolated between two scored neighbours", "spec": out}
+        try:
+            w, he = measure_derived(ya, yb, rendering, eg)
+            if abs(w - want_w) > 1e-9:
+                mism.append(("aph-weight:derived-object", "APH weight %r for an interpolated ground truth, specification %r (yaws %.4f, %.4f)" % (w, want_w, ya, yb), rep))
+            if he < -math.pi - 1e-9 or he > math.pi + 1e-9 or abs(abs(he) - want_d) > 1e-9:
+                mism.append(("yaw-error:derived-object", "yaw error %r for an interpolated ground truth, specification magnitude %r" % (he, want_d), rep))
+        except Exception as ex:
+            mism.append(("raised", "raised %r" % (ex,), rep))
     return n, mism
 
 
@@ -94,10 +127,13 @@ def trace_events(seed, n):
         ego = EgoPose(rng.uniform(-500, 500), rng.uniform(-500, 500), 0.0, rng.uniform(-math.pi, math.pi)) if rendering == "map" else None
         se, sg = rng.choice([1, -1]), rng.choice([1, -1])
         tilt = rng.random() < 0.3
-        roll, pitch = (rng.uniform(-0.08, 0.08), rng.uniform(-0.08, 0.08)) if (tilt and rendering == "base_link") else (0.0, 0.0)
+        roll, pitch = (rng.uniform(-0.08, 0.08), rng.uniform(-0.08, 0.08)) if tilt else (0.0, 0.0)
         w, w2, he, he2, tpv = measure(ya, yb, rendering, ego, se, sg, roll, pitch)
         ia, ib = int(round(ya * 1e4)), int(round(yb * 1e4))
-        evs.append(dict(tid=tid, a=ia % 62832, b=ib % 62832, w4=int(round(w * 1e4)), w4r=int(round(w2 * 1e4)), e=int(round(he * 1e4))))
+        # a tilted object stored in map: its yaw relative to the (yaw-only) ego differs from the map yaw minus the ego yaw by O(roll * pitch)
+        slack = 2.0 * (roll * roll + pitch * pitch) if (tilt and rendering == "map") else 0.0
+        evs.append(dict(tid=tid, a=ia % 62832, b=ib % 62832, w4=int(round(w * 1e4)), w4r=int(round(w2 * 1e4)), e=int(round(he * 1e4)),
+                        tolw=int(math.ceil(1e4 * slack / math.pi)) + (1 if slack else 0), tole=int(math.ceil(1e4 * slack)) + (1 if slack else 0)))
         info[tid] = dict(yaw_est=ya, yaw_gt=yb, rendering=rendering, signs=[se, sg], roll=roll, pitch=pitch, weight=w, yaw_error=he)
     return evs, info
 
